@@ -27,7 +27,11 @@ FORBIDDEN = re.compile(
 TRUSTED_BASE = [
     "Lean 4.33.0 kernel (+ Mathlib v4.33.0 modules imported by proof files)",
     "axioms allowed: propext, Classical.choice, Quot.sound (audited with #print axioms on every run); no sorry/native_decide/bv_decide",
-    "harness/trcore.py + fragments.py: Python-AST -> Lean translator (T-layer) and its fragment selectors",
+    "harness/trcore.py + fragments.py + kernels.py: Python-AST -> Lean translator (T-layer) and its fragment selectors",
+    "harness/canon.py: a working-tree function whose canonical form (temporaries substituted, locals renamed, if/else "
+    "returns merged, new one-line helpers inlined) is identical to that of its baseline version (harness/src_baseline) is "
+    "read as the baseline function; assumes right-hand sides of plain assignments and tests are free of side effects "
+    "(A-CANON); self-checked on every run against canon_cases.py, reported under coverage.source_normalisation",
     "harness/common.py: mapping of build errors to theorems, comparison rules of the correspondence",
     "hand-written Model/*.lean is tied to the code only by the sampled correspondence (H-layer)",
 ]
@@ -444,6 +448,16 @@ def write_replay(ctx, tag, payload):
     return path
 
 
+def _canon_report():
+    """what canon.py did to the sources the fragments of this check were read from (functions handed to the extractors
+    as their baseline AST because their canonical forms are identical, and functions that really differ)"""
+    try:
+        import canon
+        return {rel: {k: v for k, v in rep.items() if v} for rel, rep in canon.report().items()}
+    except Exception as e:      # noqa: BLE001
+        return {"error": str(e)}
+
+
 def write_evidence(ctx, lean, extra_cov, violations, assumptions):
     os.makedirs(EVID, exist_ok=True)
     cov = {
@@ -455,6 +469,7 @@ def write_evidence(ctx, lean, extra_cov, violations, assumptions):
         "failed_theorems": lean.failed,
         "axioms": {t: a for t, a in lean.audit.items()},
         "fragments_broken": lean.gen_broken,
+        "source_normalisation": _canon_report(),
         "evaluations": ctx.corr_evals + ctx.search_evals,
         "distinct_nontrivial": len(ctx.corr_nontrivial) + len(ctx.search_nontrivial),
         "correspondence_evaluations": ctx.corr_evals,
